@@ -62,7 +62,7 @@ def compare(case, go, m):
 
 def correspond(ctx, C):
     st = S.SpecStats()
-    rows = S.run(ctx, C, "speccat", 128, 1280) + S.run(ctx, C, "spec", 256, 4000)
+    rows = S.run(ctx, C, "speccat", 196, 1960) + S.run(ctx, C, "spec", 256, 4000)
     viol, ties = [], []
     compared = 0
     for r in rows:
